@@ -89,6 +89,9 @@ func sampleCtl(r *rand.Rand) CtlConfig {
 	}
 	if r.IntN(3) == 0 {
 		c.DefaultService = "a/s1"
+		if _, avoid := avoidFlags(); avoid["dedicated_default_service"] {
+			c.DefaultService = "a/dflt" // a service no ingress rule uses
+		}
 	}
 	if r.IntN(3) == 0 {
 		c.DefaultSSLCertificate = "a/tls1"
@@ -346,7 +349,7 @@ func init() {
 			if _, avoid := avoidFlags(); avoid["dedicated_default_service"] && ctl.DefaultService != "" {
 				ctl.DefaultService = "a/dflt"
 			}
-			rc := &RunConfig{Property: "C03", Profile: "routing-static", Seed: seed, Ctl: ctl, MapOrder: r.IntN(2) == 0, Lagfree: r.IntN(2) == 0}
+			rc := &RunConfig{Property: "C03", Profile: "routing-static", Seed: seed, Ctl: ctl, MapOrder: r.IntN(2) == 0, Lagfree: r.IntN(2) == 0, IgnoreAvoid: []string{"no_dup_paths"}}
 			rc.World, rc.Ops = GenerateRun(seed, GenOptions{IngressKeys: []string{"path-type", "balance-algorithm"}, ValueOverrides: map[string][]string{"path-type": {"begin", "prefix", "exact"}},
 				GlobalKeys: []string{"ssl-redirect", "drain-support", "path-type-order"}, Hosts: []string{"app.local", "api.local", ""},
 				Paths: []string{"/", "/app", "/app/", "/app/sub", "/App"}, NoOps: true, KeysPerRun: 2, NoForeignClass: true,
